@@ -1621,6 +1621,7 @@ func ruleAllocFromFileInt(c *eng.Ctx) {
 	if os.Getenv("VDEBUG") == "fidx" {
 		DebugFileIntIndex(c)
 	}
+	DebugByteAsRune(c)
 	if os.Getenv("VDEBUG") == "bidx" {
 		DebugBinaryIndex(c)
 	}
@@ -2783,6 +2784,48 @@ func rulePageOwnGeometry(c *eng.Ctx) {
 	}
 	if n == 0 {
 		c.Undec(R, name+"#fields", root.Pos(), "no layout.PageFragments is filled")
+	}
+	// the same for the filter: whether a page is treated as character-level (position alone decides, no text
+	// comparison) is a finding about that page's own fragments, not something remembered from detection
+	ff := c.P.Func("layout.(*HeaderFooterResult).FilterFragments")
+	inHF := c.P.Func("layout.(*HeaderFooterResult).isInHeaderFooter")
+	if ff == nil || inHF == nil || len(ff.Params) < 3 {
+		c.Undec(R, "layout.(*HeaderFooterResult).FilterFragments#charLevel", token.NoPos, "anchor not found")
+		return
+	}
+	frags := ssa.Value(ff.Params[2])
+	m := 0
+	for _, h := range eng.Cluster(ff, 1) {
+		for _, ci := range eng.Calls(h, true, func(_ string, ci ssa.CallInstruction) bool { return eng.StaticCallee(ci) == inHF }) {
+			for k, a := range eng.ArgsWithRecv(ci) {
+				if k >= len(inHF.Params) {
+					continue
+				}
+				bt, isB := a.Type().Underlying().(*types.Basic)
+				if !isB || bt.Kind() != types.Bool || !strings.Contains(strings.ToLower(inHF.Params[k].Name()), "char") {
+					continue
+				}
+				m++
+				if cst, isC := a.(*ssa.Const); isC && cst.Value != nil {
+					c.Ok(R, fmt.Sprintf("layout.(*HeaderFooterResult).FilterFragments#charLevel%d", m), ci.Pos(), "constant")
+					continue
+				}
+				own, stored := false, ""
+				for w := range eng.SliceInter(a, func(*ssa.Call) bool { return true }, []*ssa.Function{ff, h}) {
+					if w == frags {
+						own = true
+					}
+					if fr, ok := eng.LoadOfField(w); ok && addrRoot(w) == ssa.Value(ff.Params[0]) {
+						stored = fr.Field
+					}
+				}
+				c.Check(own && stored == "", R, fmt.Sprintf("layout.(*HeaderFooterResult).FilterFragments#charLevel%d", m), ci.Pos(), "decided from the page's own fragments",
+					"whether the page is character-level is not decided from the fragments of the page being filtered (it reads the stored field "+stored+"): one character-level page switches every page of the document to position-only filtering, which deletes body lines near the margins")
+			}
+		}
+	}
+	if m == 0 {
+		c.Undec(R, "layout.(*HeaderFooterResult).FilterFragments#charLevel", ff.Pos(), "no character-level argument found")
 	}
 }
 
